@@ -471,7 +471,14 @@ class Lower:
         return ast.IfExp(test=self.expr(e.test), body=self.expr(e.true_val), orelse=self.expr(e.false_val))
 
     def e_IndexNode(self, e):
-        return ast.Subscript(value=self.expr(e.base), slice=self.expr(e.index), ctx=ast.Load())
+        idx = self.expr(e.index)
+        # T[<uint8_t>x]: the narrowing cast of an index is part of the semantics (x is reduced modulo 256 before the
+        # look-up), unlike casts that only change the static type of a value in range
+        if type(e.index).__name__ == "TypecastNode":
+            ty = getattr(idx, "_cast", "")
+            if any(n in ty for n in ("uint8_t", "unsigned char")):
+                idx = ast.BinOp(left=idx, op=ast.BitAnd(), right=ast.Constant(value=255))
+        return ast.Subscript(value=self.expr(e.base), slice=idx, ctx=ast.Load())
 
     def e_SliceIndexNode(self, e):
         return ast.Subscript(value=self.expr(e.base),
